@@ -1,6 +1,7 @@
 package main
 
 import (
+	"os"
 	"fmt"
 	"go/constant"
 	"go/token"
@@ -62,10 +63,38 @@ func c16Timestamp(c *Ctx, p *Prog, m *Model) {
 		}
 		return 0, false
 	}
+	// private helpers of the timestamp printer (zone choice, layout choice, the shared tail) are walked as part of
+	// it: their parameters stand for the arguments bound at the call
+	subst := map[ssa.Value]ssa.Value{}
+	res := func(v ssa.Value) ssa.Value {
+		for i := 0; i < 8; i++ {
+			w, ok := subst[v]
+			if !ok {
+				break
+			}
+			v = w
+		}
+		return v
+	}
+	ph16 := privateHelper(p)
+	inline := func(cs ssa.CallInstruction) *ssa.Function {
+		cal := calleeOf(cs)
+		if cal == nil || !ph16(cal) || cal == at {
+			return nil
+		}
+		if rt := cal.Signature.Recv(); rt == nil || typeName(rt.Type()) != "PrintCtx" {
+			return nil
+		}
+		switch nm(cal) {
+		case "pcAppendByte", "pcAppendString", "pcAppendStringValue", "pcAppendRune", "preCheck", "checkerr":
+			return nil
+		}
+		return cal
+	}
 	atomize := func(cond ssa.Value) (string, bool) {
 		switch x := cond.(type) {
 		case *ssa.BinOp:
-			if b, ok := isFieldLoadOf(x.X, "PrintCtx", "utcTime"); ok && b == ssa.Value(receiver(at)) {
+			if b, ok := isFieldLoadOf(x.X, "PrintCtx", "utcTime"); ok && res(b) == ssa.Value(receiver(at)) {
 				if cv, ok := constInt(x.Y); ok && (x.Op == token.EQL || x.Op == token.NEQ) {
 					n := fmt.Sprintf("utc==%d", cv)
 					if x.Op == token.NEQ {
@@ -84,7 +113,7 @@ func c16Timestamp(c *Ctx, p *Prog, m *Model) {
 					}
 				}
 			}
-			if b, ok := isFieldLoadOf(x.X, "PrintCtx", "layout"); ok && b == ssa.Value(receiver(at)) {
+			if b, ok := isFieldLoadOf(x.X, "PrintCtx", "layout"); ok && res(b) == ssa.Value(receiver(at)) {
 				if s, ok := constString(x.Y); ok && s == "" {
 					if x.Op == token.NEQ {
 						return "ownlayout", true
@@ -132,7 +161,10 @@ func c16Timestamp(c *Ctx, p *Prog, m *Model) {
 	})
 	seenZone, seenLayout := map[string]bool{}, map[string]bool{}
 	for _, a := range asg {
-		t := walkDecision(at.Blocks[0], a, negAware(a, atomize), nil)
+		for k := range subst {
+			delete(subst, k)
+		}
+		t := walkDecisionInl(at.Blocks[0], a, negAware(a, atomize), nil, inline, subst, 0)
 		cleanNeg(a)
 		if t.Kind != "return" {
 			r.Bad("R16.1", "zone["+assignStr(a)+"]", p.FuncPos(at), "the timestamp depends on a condition outside the property (%s)", t.Kind)
@@ -154,13 +186,22 @@ func c16Timestamp(c *Ctx, p *Prog, m *Model) {
 			r.Bad("R16.3", fmtKey, p.FuncPos(at), "on this path the instant is formatted by %d calls of time.Time.AppendFormat (expected exactly one): the printed text is not the standard rendering of the layout and cannot be relied on to parse back", nAF)
 			continue
 		}
-		tm := resolveAlong(af.Common().Args[0], t.Path)
-		lay := resolveAlong(af.Common().Args[2], t.Path)
+		tm := t.deep(af.Common().Args[0], subst)
+		if os.Getenv("LOGGCHECK_DEBUG") != "" {
+			fmt.Fprintf(os.Stderr, "DBG16 arg0=%v deep=%v rets=%d subst=%d\n", af.Common().Args[0], tm, len(t.Rets), len(subst))
+			for k, v := range t.Rets {
+				fmt.Fprintf(os.Stderr, "   ret %v -> %v\n", k, v)
+			}
+			for k, v := range subst {
+				fmt.Fprintf(os.Stderr, "   subst %v (%s) -> %v\n", k, k.Parent().Name(), v)
+			}
+		}
+		lay := t.deep(af.Common().Args[2], subst)
 		gotZone := "?"
 		if tm == ssa.Value(z) {
 			gotZone = "z"
 		} else if call, ok := tm.(*ssa.Call); ok {
-			if cal := calleeOf(call); cal != nil && cal.String() == "(time.Time).UTC" && call.Common().Args[0] == ssa.Value(z) {
+			if cal := calleeOf(call); cal != nil && cal.String() == "(time.Time).UTC" && t.deep(call.Common().Args[0], subst) == ssa.Value(z) {
 				gotZone = "z.UTC()"
 			}
 		}
@@ -175,7 +216,7 @@ func c16Timestamp(c *Ctx, p *Prog, m *Model) {
 			r.Ok("R16.1", zoneKey, p.Pos(instrPos(af)), "formats %s", gotZone)
 		}
 		gotLay := "?" + m.valDesc(lay)
-		if b, ok := isFieldLoadOf(lay, "PrintCtx", "layout"); ok && b == ssa.Value(receiver(at)) {
+		if b, ok := isFieldLoadOf(lay, "PrintCtx", "layout"); ok && res(b) == ssa.Value(receiver(at)) {
 			gotLay = "own"
 		} else if ex, ok := lay.(*ssa.Extract); ok && ex.Index == 0 {
 			if lk, ok := ex.Tuple.(*ssa.Lookup); ok {
